@@ -222,6 +222,39 @@ theorem _root_.KafVerif.C16.consumerKeyOld_aliases :
     ∃ g t g' t' p, (g, t) ≠ (g', t') ∧ consumerKeyOld g t p = consumerKeyOld g' t' p :=
   ⟨"a:b".toList, "c".toList, "a".toList, "b:c".toList, 0, by decide, by decide⟩
 
+theorem append_sep_inj {c : Char} : ∀ (a a' r r' : List Char), c ∉ a → c ∉ a' → a ++ c :: r = a' ++ c :: r' → a = a' ∧ r = r'
+  | [], [], r, r', _, _, h => by simp at h; exact ⟨rfl, h⟩
+  | [], x :: a', r, r', _, h2, h => by
+    simp only [List.nil_append, List.cons_append, List.cons.injEq] at h
+    exact absurd (by rw [← h.1]; simp) h2
+  | x :: a, [], r, r', h1, _, h => by
+    simp only [List.nil_append, List.cons_append, List.cons.injEq] at h
+    exact absurd (by rw [h.1]; simp) h1
+  | x :: a, y :: a', r, r', h1, h2, h => by
+    simp only [List.cons_append, List.cons.injEq] at h
+    have := append_sep_inj a a' r r' (fun hh => h1 (List.mem_cons_of_mem _ hh)) (fun hh => h2 (List.mem_cons_of_mem _ hh)) h.2
+    exact ⟨by rw [h.1, this.1], this.2⟩
+
+/-- The old key IS injective on names without the separator: the defect needs a ':' in a name. -/
+theorem consumerKeyOld_injective_sepfree (g t g' t' : List Char) (p : Nat)
+    (hg : ':' ∉ g) (hg' : ':' ∉ g') (ht : ':' ∉ t) (ht' : ':' ∉ t')
+    (h : consumerKeyOld g t p = consumerKeyOld g' t' p) : g = g' ∧ t = t' := by
+  unfold consumerKeyOld at h
+  simp only [List.append_assoc, List.singleton_append] at h
+  obtain ⟨h1, h2⟩ := append_sep_inj g g' _ _ hg hg' h
+  obtain ⟨h3, _⟩ := append_sep_inj t t' _ _ ht ht' h2
+  exact ⟨h1, h3⟩
+
+/-- `consumerOffsetKey` of the etcd store: "/kafscale/consumers/<group>/offsets/<topic>/<partition>" -/
+def etcdOffsetKey (group topic : List Char) (partition : Nat) : List Char :=
+  "/kafscale/consumers/".toList ++ group ++ "/offsets/".toList ++ topic ++ ['/'] ++ (Nat.repr partition).toList
+
+/-- **C16 (etcd store, known finding — witness).** The etcd key aliases for names containing '/':
+group `a/offsets/b` + topic `c` and group `a` + topic `b/offsets/c` share one key. -/
+theorem _root_.KafVerif.C16.etcdOffsetKey_aliases :
+    ∃ g t g' t' p, (g, t) ≠ (g', t') ∧ etcdOffsetKey g t p = etcdOffsetKey g' t' p :=
+  ⟨"a/offsets/b".toList, "c".toList, "a".toList, "b/offsets/c".toList, 0, by decide, by decide⟩
+
 /-- **C16 (pre-fix defect, witness).** Before the fix `OffsetFetch` answered 0 for a partition that
 was never committed. -/
 theorem _root_.KafVerif.C16.fetchOld_violates :
